@@ -179,6 +179,48 @@ def check_case(res, fname, combo, shp, frozen_rng):
                           {'function': fname, 'args': list(combo), 'mode': 'eval', 'program': text, 'expected': before, 'observed': after})
 
 
+    # ---- every abort point: the same call under every budget N (the builtin is interrupted inside its N-th operation, in particular
+    # inside each invocation of its callback), and with a callback that fails at its j-th invocation - a builtin that works in
+    # place and restores its argument afterwards is caught here
+    if any(s.startswith('λ') for s in combo) and (len(combo) == 2 or ABORT_ALL[0]):
+        api_err = api.OpsLimit
+        for text in texts[:1] + [t.replace(LAMBDAS[c[1:]][0], FAILING[j]) for c in combo if c.startswith('λ') for j in range(len(FAILING)) for t in texts[:1]]:
+            for N in range(2, ABORT_CAP):
+                names = {}
+                host = []
+                for i, s in enumerate(combo):
+                    if not s.startswith('λ'):
+                        names[f'a{i}'] = shp[s]()
+                        host.append(names[f'a{i}'])
+                names['cnt'] = [api.Decimal(0)]
+                before = snap(host)
+                limited = False
+                try:
+                    parser().eval(text, names, max_ops_evaluated=N)
+                except api_err:
+                    limited = True
+                except Exception:  # noqa
+                    pass
+                res.count('eval_calls')
+                res.count('abort_points')
+                after = snap(host)
+                if before != after:
+                    res.violation(f'mutates:{fname}:aborted:{_cls(combo)}',
+                                  f'a host object was left modified by a call of {fname} that was interrupted (ops limit or failing callback)',
+                                  {'function': fname, 'args': list(combo), 'mode': 'eval-aborted', 'program': text, 'budget': N,
+                                   'expected': before, 'observed': after})
+                    break
+                if not limited:
+                    break
+
+
+ABORT_CAP = 70
+ABORT_ALL = [False]      # thorough: also the arity-3 tuples
+# callbacks that fail at their 2nd / 3rd invocation (a counter kept in a host list, advanced by a compound index assignment)
+FAILING = ['(a, b, c) => [__setitem_with_op__(cnt, 0, "+=", 1), 1 / (2 - cnt[0]), a][2]',
+           '(a, b, c) => [__setitem_with_op__(cnt, 0, "+=", 1), u_undefined if cnt[0] > 2 else a][1]']
+
+
 def _cls(combo):
     return ','.join(combo)
 
@@ -215,6 +257,7 @@ def work(task):
         big_cases(res)
         return res
     _, fname, arity, mode = task
+    ABORT_ALL[0] = mode == 'full'
     names = sorted(shp)
     lam = ['λ' + k for k in sorted(LAMBDAS)]
     if arity == 1:
